@@ -323,6 +323,26 @@ func runC16(c *Ctx) {
 				o := safeEval(func() (system.Collection, error) { return e.Evaluate(input) })
 				c.Law(!(o.Err != nil && errors.Is(o.Err, impl.ErrWrongArity)), "C16/arity-complaint-after-accept",
 					"an accepted call never fails with an arity complaint", src, fmt.Sprint(o.Err))
+				// ... whatever the receiver holds (several items, none) and whatever the arguments evaluate to (nothing,
+				// several items): how many ARGUMENTS were written is all an arity complaint may be about
+				{
+					alts := []string{"Patient.name.given." + name + "(" + strings.Join(args, ", ") + ")", "%v." + name + "(" + strings.Join(args, ", ") + ")"}
+					if n >= 1 {
+						alts = append(alts, shape.recv+"."+name+"("+strings.Join(repeatStr("{}", n), ", ")+")", shape.recv+"."+name+"("+strings.Join(repeatStr("Patient.name.given", n), ", ")+")",
+							"'abc'."+name+"("+strings.Join(repeatStr("{}", n), ", ")+")", "'abc'."+name+"("+strings.Join(repeatStr("('a' | 'b')", n), ", ")+")")
+					}
+					for _, asrc := range alts {
+						ae, aerr := fhirpath.Compile(asrc, copts...)
+						if aerr != nil {
+							continue
+						}
+						ao := safeEval(func() (system.Collection, error) {
+							return ae.Evaluate(input, envVar("v", system.Collection{system.String("a"), system.String("b")}))
+						})
+						c.Law(!(ao.Err != nil && errors.Is(ao.Err, impl.ErrWrongArity)), "C16/arity-complaint-after-accept",
+							"an accepted call never fails with an arity complaint", asrc, fmt.Sprint(ao.Err))
+					}
+				}
 				if strings.HasSuffix(out, ":unimplemented") {
 					// also on an empty input collection: the explicit error, not a silent empty result
 					esrc := "{}." + name + "(" + strings.Join(args, ", ") + ")"
